@@ -1,6 +1,7 @@
 import Driver.Codec
 import Driver.Asks
 import Driver.WireCodec
+import Driver.Asn1Codec
 import WebAuthnModel.Model.AuthData
 import WebAuthnModel.Model.Cose
 import WebAuthnModel.Model.Origin
@@ -372,6 +373,10 @@ partial def loop (stdin stdout : IO.FS.Stream) : IO Unit := do
           let r ← runIO stdin stdout p
           pure (r.setObjVal! "id" id)
         | .ok none =>
+          match handleAsn1 op j with
+          | .error e => pure (Json.mkObj [("id", id), ("error", e)])
+          | .ok (some r) => pure (r.setObjVal! "id" id)
+          | .ok none =>
           match handlePure op j with
           | .ok r => pure (r.setObjVal! "id" id)
           | .error e => pure (Json.mkObj [("id", id), ("error", e)])
